@@ -200,7 +200,7 @@ def run(chk):
         exe, marks, d = build_runner(chk, variant)
         # quick tier: the alternative limb configuration is recorded for the signing family only (scalar inverse, ecmult_gen, field code)
         vapis = [a for a in apis if a in ("ecdsa_sign", "schnorrsig_sign", "adaptor_encrypt", "ecdh", "seckey_tweak_mul")] if (quick and variant != "std") else apis
-        jobs = [(exe, marks, d, api, var, i, secret_for(api, i, secs)) for api in vapis for var in (APIS[api][:2] if quick else APIS[api]) for i in run_indices(api, var, k)]
+        jobs = [(exe, marks, d, api, var, i, secret_for(api, i, secs)) for api in vapis for var in (APIS[api][:(3 if variant == "std" else 2)] if quick else APIS[api]) for i in run_indices(api, var, k)]
         with cf.ThreadPoolExecutor(max_workers=16) as ex:
             results = list(ex.map(one_run, jobs))
         # TLC validation (a rejection is reported only if it repeats after re-recording the offending API's runs)
